@@ -594,6 +594,19 @@ func checkC03(c *ctx) {
 			reportBuild(c, "C03 built segment vs spec_of_batch (doc values)", b, mode, parts)
 			return
 		}
+		// the model of the builder's doc-value pass (BuildAlg.dv_run: doc values computed from the
+		// postings) must produce what zapx produced (batches without geo shapes)
+		if !o.Geo && i%3 == 0 {
+			dv := ask(c, sx.L(sx.N(zh.ReqDvBuild), b.Sx()))
+			if _, isErr := sx.IsErr(dv); isErr {
+				mustH(fmt.Errorf("model rejected the doc-value builder request"))
+			}
+			if !sx.Equal(dv, obs.L[pDV]) {
+				c.Violation(fmt.Sprintf("C03 doc values of the built segment differ from the extracted doc-value pass (BuildAlg.dv_run)\nchunkMode=%d\nbatch: %s\nobserved: %s\nmodel: %s", mode, clip(b.Sx().String()), clip(obs.L[pDV].Pretty()), clip(dv.Pretty())), false)
+				return
+			}
+			c.Count("doc_value_pass_runs")
+		}
 		if bad := parseAgainst(c, sb, spec, parts); bad != "" {
 			reportBuild(c, "C03/C09 parsed bytes differ from the spec: "+bad, b, mode, parts)
 			return
